@@ -17,6 +17,9 @@
 #include <amgcl/relaxation/ilu0.hpp>
 #include <amgcl/relaxation/spai0.hpp>
 #include <amgcl/relaxation/damped_jacobi.hpp>
+#include <amgcl/relaxation/as_preconditioner.hpp>
+#include <amgcl/solver/bicgstab.hpp>
+#include <amgcl/deflated_solver.hpp>
 #include <cstring>
 #include <omp.h>
 #include "vf.hpp"
@@ -87,6 +90,33 @@ static void kernels(const c09::Sys &s) {
     // relaxation sweeps
     bitwise_phase("gauss_seidel_sweeps", "thr|gauss_seidel_sweeps|" + in, false, [&]{ relaxation::gauss_seidel<B> gs(A, relaxation::gauss_seidel<B>::params(), B::params()); std::vector<double> u = z, t(s.n); gs.apply_pre(A, x, u, t); Blob b; serd(b, u); gs.apply_post(A, y, u, t); serd(b, u); gs.apply(A, x, u); serd(b, u); return b; });
     bitwise_phase("spai0_jacobi_sweeps", "thr|spai0_jacobi_sweeps|" + in, false, [&]{ relaxation::spai0<B> r0(A, relaxation::spai0<B>::params(), B::params()); relaxation::damped_jacobi<B> dj(A, relaxation::damped_jacobi<B>::params(), B::params()); backend::numa_vector<double> u(z), t(s.n), xx(x); r0.apply_pre(A, xx, u, t); Blob b; serd(b, u); dj.apply_post(A, xx, u, t); serd(b, u); return b; });
+    // deflated solver: E = Z^T A Z and its inverse are built at construction; project() forms Z^T (b - A x) with inner products,
+    // i.e. cross-thread reductions: rounding class (a first version of this phase demanded bitwise equality -- a false alarm of
+    // the harness).  The same body runs free under ThreadSanitizer in the tsan unit: scratch shared between the rows of the
+    // loop that assembles E would be a race there.
+    if (s.n >= 6) {
+        typedef amgcl::deflated_solver<relaxation::as_preconditioner<B, relaxation::spai0>, solver::bicgstab<B>> DS;
+        std::vector<double> Zv(3 * s.n);
+        for (size_t i = 0; i < s.n; ++i) { Zv[i] = 1.0; Zv[s.n + i] = (double)i / s.n - 0.5; Zv[2 * s.n + i] = (i % 2) ? 1.0 : -0.5; }
+        std::string key = "thr|deflated_projection|" + in;
+        if (vf::take([&]{ return key; })) {
+            auto once = [&]{ DS::params p; p.nvec = 3; p.vec = Zv.data(); p.solver.maxiter = 1; DS ds(At, p); std::vector<double> xx = z, yy = y; ds.project(yy, xx); return xx; };
+            set_threads(1, 0);
+            std::vector<double> ref = once();
+            double scale = 0; for (double v : ref) scale = std::max(scale, std::abs(v));
+            vf::nontrivial(vf::hstr(key));
+            for (int nt : NTS) for (int pol = 0; pol < NPOL; ++pol) {
+                set_threads(nt, pol);
+                std::vector<double> got = once();
+                double worst = 0; for (size_t i = 0; i < ref.size(); ++i) worst = std::max(worst, std::abs(got[i] - ref[i]));
+                vf::count("runs");
+                // three reductions of length n and a 3x3 solve: the results of two summation orders differ by a few n eps relative
+                if (!(worst <= 64.0 * (s.n + nt) * 2.2204460492503131e-16 * std::max(scale, 1.0))) { vf::fail("threads.rounding.deflated_projection", key, vf::KS() << "nt=" << nt << " policy=" << pol << ": max |x - x_nt1| = " << worst << " (scale " << scale << ")"); break; }
+                else vf::S().traces_validated += 1;
+            }
+            set_threads(1, 0);
+        }
+    }
     // ILU0: factorisation is serial -> bitwise; the triangular solve is bitwise among the serial counts (nt<4) and among the parallel ones
     {
         auto Ap = std::make_shared<Crs>(A);
